@@ -289,10 +289,11 @@ CLAIMED["C01"] = dict(
          "out-of-bounds accesses included); the source semantics are never stuck on such a program (type soundness). The "
          "proof rests on the all-width correctness of the adder, subtractor, comparator, equality, negation and cast circuits "
          "(Proofs/Arith*.lean, BitOps*.lean), of the multiplier, divider, shifter and the repeated addition used for positive "
-         "literal factors, and on the layout lemmas of the encoding (Proofs/BitAgg.lean). One abstraction: a[i] and a[i] = v "
-         "are modelled by the element they select / replace, not by their mux trees. PARTIAL: the fragment excludes "
+         "literal factors, on the layout lemmas of the encoding (Proofs/BitAgg.lean), on the mux tree of array reads and the mux "
+         "chains of array writes selecting / replacing exactly the element at the index (Proofs/ArithIndex.lean, BitIndex.lean) "
+         "and on == of aggregates being equality of encodings (Proofs/BeqEncode.lean). PARTIAL: the fragment excludes "
          "multiplication by a negative literal (where the recorded C03 finding lives), "
-         "== on aggregates, for-join loops / join and constants; for those, "
+         "for-join loops / join and constants; for those, "
          "and for the step from Bit.bitStmts to real gates, the property is explored: generated programs (the generator "
          "builds the syntax tree itself) are compiled as SSA and register circuit with and without de-duplication and compared "
          "with the Lean source semantics on 6 argument tuples each; programs of the fragment are additionally run through "
